@@ -17,6 +17,7 @@
 #[macro_use]
 extern crate mac;
 
+use std::cmp;
 use std::slice;
 
 pub use impls::arrayvec::ArrayVecBuffer;
@@ -113,6 +114,7 @@ impl<'d, 's> BufferRef<'d, 's> {
 
     fn cap_at(self, index: usize) -> BufferRef<'d, 's> {
         assert!(*self.initialized_ == 0);
+        let index = cmp::min(index, self.buffer.len());
         BufferRef {
             buffer: &mut self.buffer[..index],
             initialized_: self.initialized_,
